@@ -283,7 +283,7 @@ IJ("C06.xq_check", "C06", "h_xq_check", XQ_CALLEES, harness="harness/h_iauth_xq.
    assumptions=SET_ASSUME, bound="service table of 2 slots", cls="bounded", timeout=2400, cost=20, defines=["NSRV=2"])
 
 PROPS["C09"] = dict(level="proof", explanation="single formatter iauth_send proved against the line format with the printf model; address text via C12; log channel separation in C18/C09.log")
-IO_UNW = ["--unwind", "14", "--unwindset", "put_str.0:41,put_dec.0:12,put_dec.1:12,h_send.0:13,h_send.1:41,h_send.2:14,h_send.3:201,h_send.4:1201,fputs.0:1100,iauth_send.0:5,memset.0:600"]
+IO_UNW = ["--unwind", "14", "--unwindset", "put_str.0:41,put_dec.0:12,put_dec.1:12,h_send.0:13,h_send.1:41,h_send.2:14,h_send.3:129,h_send.4:129,fputs.0:130,iauth_send.0:5,memset.0:600"]
 IJ("C09.send", "C09", "h_send", SETM, harness="harness/h_iauth_io.c", stubs=IAUTH_STUBS + ["stubs/stdout_model.c"], functions=["iauth_send"],
    cbmc=IO_UNW, cls="bounded", bound="string arguments of <= 11 bytes; every format string used by the daemon", timeout=1800, cost=10)
 IJ("C04.routing_roundtrip", "C04", "h_routing_roundtrip", SETM, harness="harness/h_iauth_io.c", stubs=IAUTH_STUBS + ["stubs/stdout_model.c"],
